@@ -148,7 +148,9 @@ def freeze(a):
     if isinstance(a, SArr):
         get = a.buf.get
         off = a.off
-        return lambda j, get=get, off=off: get(z3.simplify((z3.IntVal(off) if isinstance(off, int) else off) + j))
+        st = a.stride
+        return lambda j, get=get, off=off, st=st: get(z3.simplify(
+            (z3.IntVal(off) if isinstance(off, int) else off) + (j * st if st != 1 else j)))
     raise OutsideSubset("freeze")
 
 
@@ -252,7 +254,7 @@ def norm_slice(interp, sl, n):
     """(start, stop) of slice against length n; negative concrete bounds are
     taken from the end; symbolic bounds carry in-bounds side obligations
     (numpy/Python clamp silently, the contract requires no clamping)."""
-    if sl.step not in (None, 1):
+    if sl.step is not None and not (isinstance(sl.step, int) and sl.step >= 1):
         raise OutsideSubset("slice step")
     ne = z3.IntVal(n) if isinstance(n, int) else n
 
@@ -281,7 +283,9 @@ def norm_slice(interp, sl, n):
         return lo, hi
     loe = z3.IntVal(lo) if isinstance(lo, int) else lo
     hie = z3.IntVal(hi) if isinstance(hi, int) else hi
-    interp.side_obligation("slice bounds ordered", loe <= hie)
+    # Python/numpy semantics: an inverted slice is empty
+    if not interp.implied(loe <= hie):
+        hi = z3.If(hie < loe, loe, hie)
     return lo, hi
 
 
@@ -290,17 +294,20 @@ def getitem(interp, obj, key):
         n = zlen(obj.length())
         if isinstance(key, slice):
             lo, hi = norm_slice(interp, key, n)
+            st = key.step or 1
             ln = hi - lo
+            if st != 1:
+                ln = (ln + (st - 1)) // st if isinstance(ln, int) else (ln + (st - 1)) / st
             if not isinstance(ln, int):
                 ln = z3.simplify(ln)
                 s = simp_int(ln)
                 ln = s if s is not None else ln
-            off = obj.off + lo
+            off = obj.off + lo * obj.stride
             if not isinstance(off, int):
                 off = z3.simplify(off)
                 s = simp_int(off)
                 off = s if s is not None else off
-            return SArr(obj.buf, off, ln, obj.dtype_name)      # a view
+            return SArr(obj.buf, off, ln, obj.dtype_name, obj.stride * st)      # a view
         if isinstance(key, SArr):
             if key.kind == "bool":
                 raise OutsideSubset("boolean mask selection")
